@@ -203,6 +203,9 @@ def run(chk):
             for nz, fname in ((True, 'calc_inclination'), (False, 'calc_inclination_off')):
                 fr = it.call(mi, g, [l, nz])
                 chk.ob('R09.4', f'get_inclination_func({l},{nz})', isinstance(fr, FuncRef) and fr.node is tables[(l, fname)][2], f'returns {fr!r}', mi.where(g), method='resolved callee identity')
+    from .common import registry_writers
+    registry_writers(chk, 'R09.4', repo, 'TidalPy/tides/inclination_funcs/__init__.py', ['inclination_functions_on', 'inclination_functions_off', 'inclination_functions'])
+    registry_writers(chk, 'R09.4', repo, 'TidalPy/tides/modes/mode_calc_helper/__init__.py', ['inclination_functions_lookup'])
     # multi-l helpers
     mh = repo.by_path('TidalPy/tides/modes/mode_calc_helper/__init__.py')
     look = it.global_name(mh, 'inclination_functions_lookup')
